@@ -13,7 +13,7 @@ MANIFEST = {
             'only early exit and NCR_EXTRA + 4 is the documented 14), so a fresh minimum-size sink always admits the next step; (c) no '
             'iteration spins: in every converter body each CFG cycle contains a unit fetch or a handle write, and a push-back (unread) that '
             'continues the loop has stored output first (ISO-2022-JP escape-then-retry); (d) every Unmappable result reports the unmappable character as consumed (a consumed() count, or position + k >= 1 in the single-byte UTF-16 loop), never the count after an unread(). The linear bound on the number of calls as such '
-            'follows from these only together with C02/C04 behaviour and is not separately decided. (R-UTF8ENC) the hand-written UTF-8 to UTF-8 encoder copies the longest prefix that fits and ends on a character boundary: the whole input with (InputEmpty, n, n) when it fits; otherwise the boundary search starts at exactly dst.len(), steps back by one over continuation bytes only, and the cut t is both what is copied (dst[..t] <- src[..t]) and what is reported (OutputFull, t, t).  (R-ASCIICOPY) the ASCII fast-path helpers of the handles (copy_ascii_from/to_check_space_*) advance the source and the destination position in step by what the ASCII kernel consumed, add only the units of the non-ASCII character on the source side and nothing on a path that stops, and report with Stop the source position itself and the destination position.  (R-PROGRESS.replay-retire) every returning path of the BOM replay helpers (decode_to_utf8/utf16_after_one/two_potential_bom_byte(s)) leaves life_cycle = Converting, or ConvertingWithPendingBB only on the two-byte helper\'s first_read == 1 path: withheld bytes are retired whatever the replay\'s result, so no call re-enters the same replay with nothing consumed.',
+            'follows from these only together with C02/C04 behaviour and is not separately decided. (R-UTF8ENC) the hand-written UTF-8 to UTF-8 encoder copies the longest prefix that fits and ends on a character boundary: the whole input with (InputEmpty, n, n) when it fits; otherwise the boundary search starts at exactly dst.len(), steps back by one over continuation bytes only, and the cut t is both what is copied (dst[..t] <- src[..t]) and what is reported (OutputFull, t, t).  (R-ASCIICOPY) the ASCII fast-path helpers of the handles (copy_ascii_from/to_check_space_*) advance the source and the destination position in step by what the ASCII kernel consumed, add only the units of the non-ASCII character on the source side and nothing on a path that stops, and report with Stop the source position itself and the destination position.  (R-PROGRESS.replay-retire) every returning path of the BOM replay helpers (decode_to_utf8/utf16_after_one/two_potential_bom_byte(s)) leaves life_cycle = Converting, or ConvertingWithPendingBB only on the two-byte helper\'s first_read == 1 path: withheld bytes are retired whatever the replay\'s result, so no call re-enters the same replay with nothing consumed.  (R-RESUME, shared with C02) the resume-from-pending arms of the multi-byte decoders clear the pending state before anything that can return, so a rejected byte is not met again in the same pending state by every later call.',
     'note': 'Trusted: rustc MIR, mirx, rule library, documented minimum sizes (lib.rs docs: 4 / 2 / 4 / NCR_EXTRA + 4).',
     'technique': 'control-dependence rule on OutputFull constructions + capacity extraction + cycle/progress analysis on MIR CFGs',
 }
@@ -268,6 +268,8 @@ def run(rep, facts, tier):
         na_ = r_asciicopy.run(rep, f, c)
         rep.floor('R-ASCIICOPY', 'ASCII fast-path helpers of the handles', na_, 9, c)
         r_state.pairing(rep, f, c, 'R-STATE')
+        import r_resume
+        r_resume.run(rep, f, c, 'R-RESUME')     # a resume arm that keeps its pending state across an early return re-reads the same byte forever
         import p_c10
         nr = sum(p_c10.replay_retire(rep, f, c, sink) for sink in ('utf8', 'utf16'))
         rep.floor('R-PROGRESS.replay-retire', 'returning paths of the BOM replay helpers', nr, 8, c)
